@@ -165,6 +165,7 @@ func genC15(r *rand.Rand, tier string, env *Env) []Case {
 		nt = 150
 	}
 	cases = append(cases, genCliTreeCases(r, nt)...)
+	cases = append(cases, invocationCases(r, nt/2)...)
 	return cases
 }
 
@@ -458,6 +459,11 @@ func genC16(r *rand.Rand, tier string, env *Env) []Case {
 		}
 		cases = append(cases, Case{Kind: "no-fault", Ops: ops})
 	}
+	nInv := 6
+	if tier == "thorough" {
+		nInv = 80
+	}
+	cases = append(cases, invocationCases(r, nInv)...)
 	return cases
 }
 
@@ -1250,9 +1256,9 @@ func init() {
 	oracles["c18.all"] = oracleC18All
 	oracles["c17.carry"] = oracleC17
 	treeRule := "generated CRS checkouts (1..5 rule assembly files incl. chain offsets, include files, toolchain.yaml or none, rules files with the addressed rules and chains, regression tests, setup example) with decoys (other extensions, similar names, nested directories, files outside the root); "
-	properties["C15"] = &Property{ID: "C15", LeanMods: []string{"CrsProps.C15"}, Corr: "K10 (binary on sandbox trees, recursive snapshot path/size/sha256/mode before and after)", Workers: 8,
+	properties["C15"] = &Property{ID: "C15", LeanMods: []string{"CrsProps.C15", "CrsProps.CliRun"}, Corr: "K10 (binary on sandbox trees, recursive snapshot path/size/sha256/mode before and after)", Workers: 8,
 		Rule: treeRule + "19-20 command lines per tree (inspecting and rewriting commands, single target / --all / --check / -o github), run from the root, with -d root, -d subdirectory, relative -d; non-trivial = every run; distinct by (tree, command, mode)", Gen: genC15}
-	properties["C16"] = &Property{ID: "C16", LeanMods: []string{"CrsProps.C16", "CrsProps.C12Cli"}, Corr: "K10 (exit status, stdout, tree snapshot under single injected faults)", Workers: 8,
+	properties["C16"] = &Property{ID: "C16", LeanMods: []string{"CrsProps.C16", "CrsProps.C12Cli", "CrsProps.CliRun"}, Corr: "K10 (exit status, stdout, tree snapshot under single injected faults)", Workers: 8,
 		Rule: treeRule + "one fault of 30 classes injected into the first/middle/last assembly file (or the rules file / argument / version), every command the fault concerns; non-trivial = every run; distinct by (tree, fault, command)", Gen: genC16,
 		Assume: []string{"known finding D19: update --all / format --all are not atomic — targets of assembly files preceding the faulty one (format: any other file) are already rewritten when the run fails"}}
 	properties["C08"] = &Property{ID: "C08", LeanMods: []string{"CrsProps.C08", "CrsProps.C12Cli"}, Corr: "K10 (tree after --all vs tree after the single invocations in a random order; compare verdict lines)", Workers: 8,
